@@ -420,6 +420,9 @@ def _unicode(prog, rep):
 
 
 def _filter_rule(prog, rep, r5, r6, fc, stripped, site):
+    from ..pred import bool_facts
+    from ..idioms import optchar_eq
+    from ..engines.schemas import end_char
     m = models.closure_model(prog, fc, state_types=())
     D = lambda t: describe(t, fc)[:140]
     cap = None
@@ -429,18 +432,27 @@ def _filter_rule(prog, rep, r5, r6, fc, stripped, site):
     idx = ("field", ("param", 2, fc.arg_names.get(2, "_2")), "0")
     rejects = set()
     n_false = 0
+    # paths with their verdict; a non-constant boolean result is split into its two outcomes
+    outcomes = []
     for rp in m.returns:
-        if rp.ret == ("bool", True):
+        if rp.ret[0] == "bool":
+            outcomes.append((rp.ret[1], list(rp.facts)))
+        else:
+            for pol in (True, False):
+                fs = list(rp.facts) + bool_facts(rp.ret, pol)
+                if not contradictory(fs):
+                    outcomes.append((pol, fs))
+    for verdict, facts in outcomes:
+        if verdict:
             continue
         n_false += 1
         # a rejecting path must be conditional on idx != stripped.len()
         guard = False
-        for a, pol in rp.facts:
-            if a[0] == "cmp" and a[1] == "Eq" and not pol and cap is not None:
-                if {a[2], a[3]} == {idx, ("call", "str::len", (cap,))} or {a[2], a[3]} == {idx, ("call", "String::len", (cap,))}:
-                    guard = True
-            if a[0] == "cmp" and a[1] == "Lt" and pol and cap is not None:
-                if a[2] == idx and a[3] in (("call", "str::len", (cap,)), ("call", "String::len", (cap,))):
+        if cap is not None:
+            nfs = {fact_nf(f) for f in facts if f[0][0] == "cmp"}
+            for ln in ("str::len", "String::len"):
+                L = poly(("call", ln, (cap,)))
+                if NE0(L - poly(idx)) in nfs or NE0(poly(idx) - L) in nfs or GT0(L - poly(idx)) in nfs:
                     guard = True
         r5.check(guard, "reject-not-last", "the filter can only reject an opportunity whose index is not stripped.len()",
                  "rejecting path is conditional on idx != stripped.len()",
@@ -448,26 +460,44 @@ def _filter_rule(prog, rep, r5, r6, fc, stripped, site):
                  "idx != stripped.len()): next_back() then removes a real break opportunity, e.g. for a line ending in '-'",
                  site=fc.span)
         # which char does it reject after?
-        for a, pol in rp.facts:
-            if pol and a[0] == "inteq":
-                t = a[1]
-                # t = next_back(chars(stripped[..idx]))?Some.0
-                rejects.add(int(a[2]))
-                ok_src = False
-                r = item_source(prog, fc, t)
-                if r is not None:
-                    src, path, call = r
-                    if src[0] == "call" and src[1] == "str::chars" and call[1] == "DoubleEndedIterator::next_back":
-                        sl = src[2][0]
-                        if sl[0] == "call" and sl[1] == "Index::index" and sl[2][0] == cap and range_parts(sl[2][1])[0] == "to" \
-                                and range_parts(sl[2][1])[2] == idx:
-                            ok_src = True
-                r6.check(ok_src, "char-before", "the filter inspects the char directly before the opportunity in the stripped text",
-                         "stripped[..idx].chars().next_back()", "the filter inspects %s, not the char before the opportunity" % D(t), site=fc.span)
-            if pol and a[0] == "cmp" and a[1] == "Eq":
-                for x in (a[2], a[3]):
-                    if x[0] == "char":
-                        rejects.add(x[1])
+        for f in facts:
+            oc = optchar_eq(f)
+            if oc is None or not oc[2]:
+                continue
+            o, code, _ = oc
+            rejects.add(code)
+            ec = end_char(prog, fc, o)
+            ok_src = False
+            if ec is not None and ec[0] == "back":
+                sl = ec[1]
+                if sl[0] == "call" and sl[1] == "Index::index" and sl[2][0] == cap and range_parts(sl[2][1])[0] == "to" \
+                        and range_parts(sl[2][1])[2] == idx:
+                    ok_src = True
+            r6.check(ok_src, "char-before", "the filter inspects the char directly before the opportunity in the stripped text",
+                     "stripped[..idx].chars().next_back()", "the filter inspects %s, not the char before the opportunity" % D(o), site=fc.span)
+    # accepting paths must not accept after '-' / SHY away from the end: every accepting path that is not
+    # the end-of-text case has to refute both characters
+    for verdict, facts in outcomes:
+        if not verdict:
+            continue
+        eqs = {}
+        for f in facts:
+            oc = optchar_eq(f)
+            if oc is not None:
+                eqs[oc[1]] = oc[2]
+        at_end = False
+        if cap is not None:
+            nfs = {fact_nf(f) for f in facts if f[0][0] == "cmp"}
+            for ln in ("str::len", "String::len"):
+                L = poly(("call", ln, (cap,)))
+                if EQ0(L - poly(idx)) in nfs or EQ0(poly(idx) - L) in nfs:
+                    at_end = True
+        none = any(a[0] == "variant" and ((a[2] == "None") == pol) for a, pol in facts)
+        ok = at_end or none or (eqs.get(0x2d) is False and eqs.get(0xad) is False) \
+            or any(v is True and k not in (0x2d, 0xad) for k, v in eqs.items())
+        r6.check(ok, "accept", "an opportunity away from the end is kept only if the previous char is neither '-' nor U+00AD",
+                 "accepting path refutes both", "the filter keeps an opportunity on a path that does not rule out '-' and U+00AD "
+                 "before it (conditions %s)" % {"U+%04X" % k: v for k, v in eqs.items()}, site=fc.span)
     r6.check(rejects == {0x2d, 0xad}, "reject-set", "opportunities are suppressed exactly after '-' and U+00AD",
              str(sorted("U+%04X" % x for x in rejects)),
              "the filter suppresses opportunities after %s; expected exactly {'-', U+00AD}" % sorted("U+%04X" % x for x in rejects), site=fc.span)
